@@ -341,6 +341,7 @@ func (e *Engine) typeInv(st *State, v Val) {
 	if st == nil {
 		return
 	}
+	e.notOwned(st, v)
 	switch v.K {
 	case KPtr:
 		sz := int64(1)
@@ -364,6 +365,34 @@ func (e *Engine) typeInv(st *State, v Val) {
 		}
 	case KStr:
 		// nothing
+	}
+}
+
+// notOwned: a reference that was read from memory or returned by a call cannot point into an object
+// that this function allocated and has not let escape (nobody else has its address).
+func (e *Engine) notOwned(st *State, v Val) {
+	switch v.K {
+	case KPtr, KIface, KSlice, KMap:
+	default:
+		return
+	}
+	if os.Getenv("GOVC_DBGOWN") != "" {
+		fmt.Fprintln(os.Stderr, "notOwned", v.T, len(st.owned))
+	}
+	if len(st.owned) == 0 || len(st.owned) > 12 || v.T == "0" {
+		return
+	}
+	for _, o := range st.owned {
+		if strings.Contains(v.T, o.ref) {
+			return
+		}
+	}
+	for _, o := range st.owned {
+		sz := sizeOf(o.ty)
+		if sz < 1 {
+			sz = 1
+		}
+		st.assume(fmt.Sprintf("(or (< %s %s) (>= %s %s))", v.T, o.ref, v.T, addInt(o.ref, sz)))
 	}
 }
 
@@ -656,6 +685,9 @@ func (e *Engine) alloc(st *State, t types.Type, owned bool) string {
 	}
 	st.A.off += sizeOf(t)
 	if owned {
+		if os.Getenv("GOVC_DBGOWN") != "" {
+			fmt.Fprintln(os.Stderr, "own", r)
+		}
 		st.owned = append(st.owned, ownedObj{r, t})
 	}
 	return r
@@ -1138,6 +1170,11 @@ func (e *Engine) gotoBlock(st *State, b *ssa.BasicBlock) []*State {
 			return []*State{st}
 		}
 	}
+	if isRoot && e.con != nil && e.con.has("terminates") && len(decs) == 0 && !(li.body[from] && b.Dominates(from)) && !rangeLoop(li, b) {
+		// `terminates`: every loop of the function needs a measure (range loops end by construction)
+		where := posString(e.P.prog.Fset, firstPos(b))
+		e.oblige(st, fmt.Sprintf("%s#decreases:loop%d", e.fnShort(), li.ordinal), "K4", "the loop has no termination measure (`loop N decreases ...`)", "false", where, e.con.get("terminates")[0].Props)
+	}
 	invs = e.applicable(st, invs)
 	if li.body[from] && b.Dominates(from) {
 		// back edge: re-establish invariants, check variant, end of path
@@ -1155,7 +1192,18 @@ func (e *Engine) gotoBlock(st *State, b *ssa.BasicBlock) []*State {
 		for _, c := range decs {
 			v1 := e.evalSpec(st, e.entry, c.Expr, e.rootEnv(st, nil))
 			v0, ok := fr.variant[b]
-			if ok {
+			if ok && v0.K == KTuple && v1.K == KTuple && len(v0.F) == len(v1.F) {
+				// lexicographic: some component decreases, everything before it is unchanged; all components >= 0
+				var alts, nonneg []string
+				var same []string
+				for k := range v0.F {
+					alts = append(alts, and(append(append([]string{}, same...), "(bvslt "+v1.F[k].T+" "+v0.F[k].T+")")...))
+					same = append(same, eq(v1.F[k].T, v0.F[k].T))
+					nonneg = append(nonneg, "(bvsge "+v0.F[k].T+" "+bvLit(0, 64)+")")
+				}
+				goal := and(append([]string{or(alts...)}, nonneg...)...)
+				e.oblige(st, fmt.Sprintf("%s#decreases:loop%d", e.fnShort(), li.ordinal), "K4", c.Text, goal, e.where(from), c.Props)
+			} else if ok {
 				v1 = e.coerce(v1, v0)
 				goal := and("(bvslt "+v1.T+" "+v0.T+")", "(bvsge "+v0.T+" "+bvLit(0, e.widthOf(v0))+")")
 				e.oblige(st, fmt.Sprintf("%s#decreases:loop%d", e.fnShort(), li.ordinal), "K4", c.Text, goal, e.where(from), c.Props)
@@ -1229,7 +1277,7 @@ func (e *Engine) gotoBlock(st *State, b *ssa.BasicBlock) []*State {
 		st.assume(v)
 		e.uncheckedAssumes[shortFn(e.fn)+" loop "+fmt.Sprint(li.ordinal)+": "+c.Text] = true
 	}
-	if len(lframes) > 0 {
+	if len(lframes) > 0 || (isRoot && e.con != nil && e.con.usesAtLoop()) {
 		if fr.loopRef == nil {
 			fr.loopRef = map[*ssa.BasicBlock]*State{}
 		}
@@ -1332,4 +1380,18 @@ func (e *Engine) feasible(st *State) bool {
 		}
 	}
 	return firstLine(out) != "unsat"
+}
+
+// rangeLoop: a `for range` loop over a slice, array, string, map or integer (its trip count is fixed
+// when the loop starts).
+func rangeLoop(li *LoopInfo, h *ssa.BasicBlock) bool {
+	if li.rangeIdx != nil {
+		return true
+	}
+	for _, ins := range h.Instrs {
+		if _, ok := ins.(*ssa.Next); ok {
+			return true
+		}
+	}
+	return false
 }
